@@ -7,6 +7,15 @@ TRUST = ("TLC 1.8 evaluates the TLA+ judge; harness/lib.py projections (real obj
          "of abstract cases are trusted; bounds as stated in the evidence file")
 
 CHECKS = {
+ "C12": dict(
+    text="Affine.tla defines translation, scaling, axis rotations, Rodrigues rotation and conjugation about a centre as 4x4 matrices over exact rationals "
+         "(angles with rational sine and cosine, rational unit axes). TLC proves over the whole parameter grid, in exact arithmetic, that the chosen centre "
+         "stays fixed, rotations preserve all distances, the sense is right-handed, Rodrigues agrees with the axis rotations and fixes its axis, scaling "
+         "multiplies centre-relative offsets per axis, and a transform followed by its inverse is the identity. The generator emits every operation x centre "
+         "mode x tree set (incl. the same transform object applied to two trees, +-2pi windings, class and classmethod entry points, inverse pairs, matrix "
+         "builders); the executor applies them to trees whose root is away from the origin and TLC compares every coordinate / matrix entry with the exact "
+         "rational value, and checks that parents, types, radii and the input tree are untouched",
+    design="4/C12", technique="TLA+ exact-rational specification of the affine maps (algebraic statements checked by TLC over the grid) + TLC-generated cases replayed into the code, TLC-judged against exact values"),
  "C17": dict(
     text="Mst.tla states the construction as a greedy machine (state: connected set, parents, path lengths, child counts; one action per attachment, enabled for "
          "the admissible pairs of minimal cost q*distance + p*path length) and the statements about the result (spanning, rooted at the soma / first point, "
